@@ -65,6 +65,13 @@ func isWork(in ssa.Instruction) bool {
 			return true
 		}
 		cn := core.CalleeName(&x.Call)
+		switch cn {
+		case "time.Now", "time.Sleep", "time.After", "time.AfterFunc", "time.NewTimer", "time.NewTicker", "time.Tick", "time.Since", "time.Until",
+			"(*time.Timer).Reset", "(*time.Timer).Stop", "(*time.Ticker).Reset", "(*time.Ticker).Stop":
+			// reading the clock and arming timers are observations and effects: where they stand relative to a
+			// lock or to the operation they time is behaviour (a deadline computed before waiting for a mutex is stale)
+			return true
+		}
 		if isLoggerName(cn) || strings.HasPrefix(cn, "fmt.") || strings.HasPrefix(cn, "strings.") || strings.HasPrefix(cn, "strconv.") || strings.HasPrefix(cn, "(*k8s.io/klog") || strings.HasPrefix(cn, "k8s.io/klog") || strings.HasPrefix(cn, "(github.com/go-logr") || strings.HasPrefix(cn, "reflect.") || strings.HasPrefix(cn, "time.") || strings.HasPrefix(cn, "(time.") || strings.HasPrefix(cn, "errors.") || strings.HasPrefix(cn, "sort.Search") {
 			return false
 		}
@@ -1028,7 +1035,7 @@ func skipTableRule(c *core.Ctx, g skipGroup) {
 var anchorTable = map[string][][2]string{
 	"C08": {{"controller/config", "CreateWithConfig"}, {"controller/config", "Options.AddFlags"}, {"controller/services", "createCacheFacade"}, {"controller/legacy", "createCache"}, {"converters/tracker", "NewTracker"}},
 	"C09": {{"controller/config", "CreateWithConfig"}, {"controller/config", "Options.AddFlags"}, {"controller/services", "createCacheFacade"}, {"controller/legacy", "createCache"}},
-	"C12": {{"controller/legacy", "HAProxyController.startServices"}, {"controller/config", "CreateWithConfig"}, {"controller/config", "Options.AddFlags"}, {"controller/services", "Services.withManager"}, {"utils/workqueue", "+WorkQueue.Start"}, {"haproxy/socket", "+buildProcTable"}, {"haproxy/socket", "+buildProcTable24"}, {"haproxy", "CreateInstance"}, {"haproxy", "newConnections"}, {"haproxy/socket", "+tokenizer.readField"}},
+	"C12": {{"haproxy", "+instance.startHAProxySync"}, {"haproxy", "instance.Shutdown"}, {"controller/legacy", "HAProxyController.startServices"}, {"controller/config", "CreateWithConfig"}, {"controller/config", "Options.AddFlags"}, {"controller/services", "Services.withManager"}, {"utils/workqueue", "+WorkQueue.Start"}, {"haproxy/socket", "+buildProcTable"}, {"haproxy/socket", "+buildProcTable24"}, {"haproxy", "CreateInstance"}, {"haproxy", "newConnections"}, {"haproxy/socket", "+tokenizer.readField"}},
 	"C14": {{"controller/legacy", "+listers.RunAsync"}, {"controller/legacy", "+listers.createConfigMapLister"}, {"controller/legacy", "+listers.createEndpointLister"}, {"controller/legacy", "+listers.createEndpointSliceLister"}, {"controller/legacy", "+listers.createGatewayClassLister"}, {"controller/legacy", "+listers.createGatewayLister"}, {"controller/legacy", "+listers.createHTTPRouteLister"}, {"controller/legacy", "+listers.createIngressClassLister"}, {"controller/legacy", "+listers.createIngressLister"}, {"controller/legacy", "+listers.createPodLister"}, {"controller/legacy", "+listers.createSecretLister"}, {"controller/legacy", "+listers.createServiceLister"}, {"controller/legacy", "+k8scache.Notify"}, {"controller/legacy", "+k8scache.SwapChangedObjects"}, {"controller/legacy", "createListers"}, {"controller/legacy", "k8scache.RunAsync"}, {"controller/reconciler", "watchers.getHandlers"}, {"controller/reconciler", "hdlr.getSource"}, {"controller/reconciler", "createWatchers"}, {"controller/reconciler", "IngressReconciler.SetupWithManager"}, {"controller/reconciler", "+hdlr.Generic"}, {"controller/reconciler", "+hdlr.Create"}, {"controller/reconciler", "+hdlr.Update"}, {"controller/reconciler", "+hdlr.Delete"}},
 	"C13": {{"controller/config", "CreateWithConfig"}, {"controller/config", "Options.AddFlags"}, {"utils/workqueue", "New"}, {"controller/services", "Services.withManager"},
 		{"controller/legacy", "HAProxyController.startServices"}, {"controller/legacy", "HAProxyController.Start"}, {"utils", "+queue.RunWithContext"}, {"utils", "queue.Run"}, {"utils", "queue.Start"}, {"utils", "queue.Clear"}, {"utils", "+queue.Add"}, {"utils", "+queue.AddAfter"}, {"utils", "+queue.Notify"}, {"utils", "+queue.Remove"}, {"utils", "+NewRateLimitingQueue"}, {"utils", "+NewFailureRateLimitingQueue"}, {"utils", "+NewQueue"}, {"utils/workqueue", "+WorkQueue.Start"}, {"utils/workqueue", "WorkQueue.AddAfter"}, {"utils/workqueue", "WorkQueue.Remove"}, {"controller/services", "+svcLeader.onStartedLeading"}, {"controller/services", "+svcLeader.onStoppedLeading"}, {"controller/services", "svcLeader.addRunnable"}, {"controller/services", "svcLeader.Start"}, {"utils/workqueue", "ingressReconciler.Forget"}, {"utils/workqueue", "ingressReconciler.NumRequeues"}, {"utils/workqueue", "reloadHAProxy.Forget"}, {"utils/workqueue", "reloadHAProxy.NumRequeues"}},
